@@ -197,11 +197,12 @@ func (m *maxInflightWrapper) SetLimit(acquireResult *AcquireResult) bool {
 
 	m.lock.Lock()
 	defer m.lock.Unlock()
+	// the server answered (accept or reject): it is available again, so that its next
+	// failure falls back to the local limit instead of keeping the last cap
+	if atomic.LoadUint32(&m.serverUnavailable) == 1 {
+		atomic.StoreUint32(&m.serverUnavailable, 0)
+	}
 	if result.Accept {
-		if atomic.LoadUint32(&m.serverUnavailable) == 1 {
-			atomic.StoreUint32(&m.serverUnavailable, 0)
-		}
-
 		limit := result.Limit
 		if limit < m.reserve {
 			limit = m.reserve
